@@ -4,17 +4,24 @@ Shape A (product space).  A *file* is 1..3 records, each of a (length, line widt
 without a newline after the last line, with plain names or names followed by a description.  On every file a fixed
 program of *operations* is executed against the real library and judged against models/fai.py:
 
-  build       the library writes the .fai (bnp.open_indexed / bnp.Genome.from_file on a FASTA that has no index);
-              the written text is parsed and every row compared with (name, length, offset, bases/line, bytes/line)
+  build       bnp.open_indexed on a FASTA that has no index writes the .fai; the written text is parsed and every
+              row compared with (name, length, offset of first base, bases/line, bytes/line)
   build-chunked  bionumpy.io.indexed_fasta.create_index with the default chunk size of read_chunks forced to EVERY
               k in 1..size+2 (the only way to reach the cross-chunk offset accumulation without a > 5 MB file)
   lengths     IndexedFasta.get_contig_lengths() == true sequence lengths
   contig      IndexedFasta[name] == whole sequence
   intervals   get_interval_sequences: EVERY [a,b) 0 <= a < b <= length, one call per interval and all of them in one
               call (forward and reversed order), through the generic path and the string-encoded fast path
-  genome      Genome.from_file(fasta).read_sequence(): chromosome sizes, whole contigs, all intervals in one call
+  genome      Genome.from_file(fasta) (writes the .fai itself when there is none: judged like `build`),
+              .read_sequence(): chromosome sizes, whole contigs, all intervals in one call
 
-each against the index written by the library and against an index supplied faidx-style by the model.
+each against the index written by the library and against an index supplied faidx-style by the model.  Which files
+get which operations is stated in bounds(); a case is (file, operation) and replays alone from {'file', 'op'}.
+
+Failure kinds name the oracle clause (fai-name / fai-length / fai-offset / fai-bases-per-line / fai-bytes-per-line /
+fai-row-count / fai-not-written / fai-malformed / fai-build-raises, contig-lengths, contig-names, whole-contig,
+intervals, intervals-batch, open-indexed-raises, genome-from-file-raises, genome-read-sequence-raises,
+genome-chrom-sizes); features are facts about the file / record / interval only.
 """
 import itertools
 import os
@@ -56,12 +63,14 @@ ASSUMPTIONS = [
 EXPLANATION = ('every small FASTA layout is written to a scratch file and the real index builder, index reader and '
                'random-access readers are run on it for every in-bounds interval')
 MANIFEST_TEXT = ('Exhaustive enumeration of FASTA files with 1..3 records of length 1..6 (quick) / 1..9 (thorough) wrapped '
-                 'at every width 1..4 / 1..6 or on a single line, with and without final newline, plain names and names '
-                 'with descriptions; on each file the library-written .fai (open_indexed and Genome.from_file) and the '
-                 'index built with every forced chunk size are compared row by row with the model, get_contig_lengths, '
-                 'every whole contig and EVERY in-bounds interval [a,b) (singly and in one batch, generic and '
-                 'string-encoded path, library-written and model-supplied index) are compared with the true substrings, '
-                 'and Genome.from_file(fasta).read_sequence() is checked as a cross-section.')
+                 'at every width 1..4 / 1..6 or on a single line, with and without final newline: on each file the '
+                 'library-written .fai is compared row by row with the model (name, length, offset, bases/line, bytes/line), '
+                 'and get_contig_lengths, every whole contig and all in-bounds intervals [a,b) in one call (generic and '
+                 'string-encoded path, library-written and model-supplied index) are compared with the true substrings. On '
+                 'all files of 1..2 records and the 3-record files of the reduced shapes (length<=3,width<=2 / <=4,<=3) '
+                 'additionally: names with descriptions, EVERY interval in a call of its own, the index built with EVERY '
+                 'forced chunk size 1..size+2, reversed batch/label order, and Genome.from_file(fasta).read_sequence() '
+                 '(index written by Genome.from_file and supplied).')
 MANIFEST_NOTE = ('Trusted: NumPy, npstructures, CPython, observer, models/fai.py. LF only; arbitrary interval subsets '
                  'and files above the bound are not explored.')
 
@@ -754,7 +763,29 @@ def run_shard(desc, deadline):
     return res
 
 
+def _mask(expected, observed):
+    """observed value with every position that differs from the expected one replaced by '?'.  Used only for the
+    verdict of the double-replay determinism gate: a wrong read may hand back uninitialised memory (np.empty), whose
+    bytes differ from process to process although the failure itself is perfectly reproducible."""
+    if isinstance(observed, str) and observed.startswith('raises '):
+        return observed.split(':')[0]
+    if isinstance(expected, str) and isinstance(observed, str):
+        if len(expected) != len(observed):
+            return '<%d characters>' % len(observed)
+        return ''.join(o if o == e else '?' for e, o in zip(expected, observed))
+    if isinstance(expected, dict) and isinstance(observed, dict):
+        return {k: _mask(expected.get(k), observed[k]) for k in sorted(observed)}
+    if isinstance(expected, (list, tuple)) and isinstance(observed, (list, tuple)):
+        if len(expected) != len(observed):
+            return '<%d items>' % len(observed)
+        return [_mask(e, o) for e, o in zip(expected, observed)]
+    if expected == observed:
+        return observed
+    return observed if isinstance(observed, (int, bool, type(None))) else '<%s>' % type(observed).__name__
+
+
 def replay_case(case):
+    import sys
     root = tempfile.mkdtemp(dir='/dev/shm', prefix='c17r_')
     try:
         ctx = Ctx(case['file'], root)
@@ -764,7 +795,9 @@ def replay_case(case):
             ctx.close()
     finally:
         shutil.rmtree(root, ignore_errors=True)
-    return [{'kind': f['kind'], 'features': f['features'], 'expected': f['expected'], 'observed': f['observed'],
+    gate = '--json' in sys.argv      # the runner's fresh-process determinism gate; a human replay shows the raw bytes
+    return [{'kind': f['kind'], 'features': f['features'], 'expected': f['expected'],
+             'observed': _mask(f['expected'], f['observed']) if gate else f['observed'],
              'traceback': f['traceback']} for f in fails]
 
 
